@@ -127,6 +127,8 @@ func catalogue(p *vchain.Producer, r *rng.R) []roScript {
 			roScript{"helper.count", call(d.Hash, "count", []byte(pfx), r.Intn(2) == 0)},
 			roScript{"helper.fold", call(d.Hash, "fold", []byte(pfx), r.Intn(2) == 0)},
 			roScript{"helper.get", call(d.Hash, "get", []byte("ab"))},
+			roScript{"helper.get(any-key)", call(d.Hash, "get", vchain.KeyUniverse()[r.Intn(len(vchain.KeyUniverse()))])},
+			roScript{"helper.get(longest-key)", call(d.Hash, "get", vchain.KeyUniverse()[len(vchain.KeyUniverse())-1-r.Intn(2)])},
 		)
 	}
 	return s
@@ -266,8 +268,8 @@ func checkHeight(run *ev.Run, bc *core.Blockchain, h uint32, obs *vchain.Observa
 					st[len(st)-1] ^= byte(1 << uint(r.Intn(8)))
 				}
 			}
-			if len(st) == 0 {
-				continue
+			if len(st) == 0 || len(st) > 64 {
+				continue // a start longer than the maximum key length is refused by design
 			}
 			max := 1 + r.Intn(4)
 			var exp []string
